@@ -637,6 +637,19 @@ fn queue_ops_scenarios(out: &mut NdjsonWriter, seed: u64, n: u64) {
             r.prune(top - 2, 3);
             r.prune(top - 2, 3);   // a second time: nothing left to do
         }
+        if i % 4 == 2 {
+            // a rewind deeper than the pruning depth: the chain grows to 125 blocks, everything is scanned, the wallet
+            // can only be truncated to the pruning floor; the scanned blocks between the target and the floor stay in the
+            // wallet and are queued again
+            let more = 125u32.saturating_sub(r.chain.top() - base);
+            r.empties(more);
+            r.tip_top();
+            let n = (r.chain.top() - base) as usize;
+            r.scan(base + 1, n);
+            r.rewind(base + 10);
+            r.scan(base + 11, 5);
+            r.suggest();
+        }
         let ops = rng.gen_range(14..26);
         for _ in 0..ops {
             if r.aborted { break; }
@@ -648,7 +661,12 @@ fn queue_ops_scenarios(out: &mut NdjsonWriter, seed: u64, n: u64) {
             marks.push(top + 1);
             marks.push(base + 1);
             let pick = |rng: &mut ChaChaRng, marks: &Vec<u32>| -> u32 { if rng.gen_bool(0.7) { *marks.choose(rng).unwrap() } else { rng.gen_range(base + 1..=top + 1) } };
-            match rng.gen_range(0..10) {
+            match rng.gen_range(0..11) {
+                10 => {
+                    // rewind_to_chain_state to a height at or above the block before the birthday (no birthday is lowered)
+                    let target = if rng.gen_bool(0.5) { pick(&mut rng, &marks).clamp(base, top) } else { rng.gen_range(base..=top) };
+                    r.rewind(target);
+                }
                 0..=2 => {
                     let h = pick(&mut rng, &marks);
                     let retain = *[-1i64, 2, 3, 3, 4, 5, 6].choose(&mut rng).unwrap();
